@@ -409,7 +409,7 @@ func cmdCheck(args []string) int {
 	}
 	replayDir := filepath.Join(verifDir(), "replays", prop)
 	exit := 0
-	var nObl, nDis, nCover, nCoverOK, nViol, nUndec int
+	var nObl, nDis, nCover, nCoverOK, nViol, nUndec, nSkipped int
 	var knownReported, undecided, violations []string
 	bySolver := map[string]int{}
 	byKind := map[string]int{}
@@ -483,6 +483,13 @@ func cmdCheck(args []string) int {
 				nUndec++
 				continue
 			}
+			if o.Result.Status == "skipped" {
+				fmt.Printf("UNDECIDED: property=%s %s (%s)\n", prop, o.ID, o.Result.Output)
+				undecided = append(undecided, o.ID+" (not attempted)")
+				nUndec++
+				nSkipped++
+				continue
+			}
 			inBase := baseline != nil && baseline[o.ID]
 			if !inBase && baseline != nil && !siteKinds[o.Kind] && baselineKeys[clauseKey(o.ID)] {
 				// the same clause was discharged on every path of the recorded tree: a new path that fails it counts
@@ -553,6 +560,12 @@ func cmdCheck(args []string) int {
 					exit = 2
 				}
 			}
+		}
+	}
+	if nSkipped > 0 && nViol == 0 {
+		fmt.Printf("CHECK-BROKEN: %d obligations were not attempted after repeated timeouts and no violation was established\n", nSkipped)
+		if exit == 0 {
+			exit = 2
 		}
 	}
 	if nObl == 0 {
